@@ -124,6 +124,9 @@ var poolCfgs = []poolCfg{
 type nodeCfg struct {
 	name  string
 	nodes func(cat []world.ITSpec, pool string) ([]world.NodeSpec, []*corev1.Pod)
+	// daemonsRunOn: on these nodes the pods of the case's daemonsets are already running (a settled node); on the others
+	// they are still to come (a fresh node)
+	daemonsRunOn []string
 }
 
 func pickType(cat []world.ITSpec, name string) world.ITSpec {
@@ -149,16 +152,16 @@ func pickOffer(t world.ITSpec, zone string) world.OfSpec {
 }
 
 var nodeCfgs = []nodeCfg{
-	{"none", func(cat []world.ITSpec, pool string) ([]world.NodeSpec, []*corev1.Pod) { return nil, nil }},
-	{"initialized-m-a+1pod", func(cat []world.ITSpec, pool string) ([]world.NodeSpec, []*corev1.Pod) {
+	{name: "none", nodes: func(cat []world.ITSpec, pool string) ([]world.NodeSpec, []*corev1.Pod) { return nil, nil }},
+	{name: "initialized-m-a+1pod", nodes: func(cat []world.ITSpec, pool string) ([]world.NodeSpec, []*corev1.Pod) {
 		t := pickType(cat, "m")
 		return []world.NodeSpec{{Name: "n1", Pool: pool, Type: t, Offer: pickOffer(t, "a")}}, []*corev1.Pod{world.Pod("b1", 1500, world.Bound("n1"), hostPort(8080, ""))}
 	}},
-	{"claim-only-m-b", func(cat []world.ITSpec, pool string) ([]world.NodeSpec, []*corev1.Pod) {
+	{name: "claim-only-m-b", nodes: func(cat []world.ITSpec, pool string) ([]world.NodeSpec, []*corev1.Pod) {
 		t := pickType(cat, "m")
 		return []world.NodeSpec{{Name: "n1", Pool: pool, Type: t, Offer: pickOffer(t, "b"), Stage: "claim-only"}}, nil
 	}},
-	{"registered-uninit-startup-taint", func(cat []world.ITSpec, pool string) ([]world.NodeSpec, []*corev1.Pod) {
+	{name: "registered-uninit-startup-taint", nodes: func(cat []world.ITSpec, pool string) ([]world.NodeSpec, []*corev1.Pod) {
 		t := pickType(cat, "m")
 		return []world.NodeSpec{{Name: "n1", Pool: pool, Type: t, Offer: pickOffer(t, "a"), Stage: "registered",
 			Startup: []corev1.Taint{{Key: "boot", Value: "x", Effect: corev1.TaintEffectNoSchedule}},
@@ -166,21 +169,28 @@ var nodeCfgs = []nodeCfg{
 	}},
 	// registered, not yet initialized, and CORDONED after registration: a NoSchedule taint that exists on the Node object
 	// only and is neither a startup nor a known ephemeral taint must repel pods that do not tolerate it
-	{"registered-uninit-cordoned", func(cat []world.ITSpec, pool string) ([]world.NodeSpec, []*corev1.Pod) {
+	{name: "registered-uninit-cordoned", nodes: func(cat []world.ITSpec, pool string) ([]world.NodeSpec, []*corev1.Pod) {
 		t := pickType(cat, "m")
 		return []world.NodeSpec{{Name: "n1", Pool: pool, Type: t, Offer: pickOffer(t, "a"), Stage: "registered",
 			NodeOnly: []corev1.Taint{{Key: "node.kubernetes.io/not-ready", Effect: corev1.TaintEffectNoSchedule}, {Key: corev1.TaintNodeUnschedulable, Effect: corev1.TaintEffectNoSchedule}}}}, nil
 	}},
-	{"deleting-l+unmanaged-s", func(cat []world.ITSpec, pool string) ([]world.NodeSpec, []*corev1.Pod) {
+	{name: "deleting-l+unmanaged-s", nodes: func(cat []world.ITSpec, pool string) ([]world.NodeSpec, []*corev1.Pod) {
 		l, s := pickType(cat, "l"), pickType(cat, "s")
 		return []world.NodeSpec{{Name: "n1", Pool: pool, Type: l, Offer: pickOffer(l, "a"), Deleting: true}, {Name: "u1", Pool: "", Type: s, Offer: pickOffer(s, "b")}},
 			[]*corev1.Pod{world.Pod("b1", 500, world.Bound("n1")), world.Pod("b2", 300, world.Bound("u1"))}
 	}},
-	{"two-nodes-s-a-tainted+m-b", func(cat []world.ITSpec, pool string) ([]world.NodeSpec, []*corev1.Pod) {
+	{name: "two-nodes-s-a-tainted+m-b", nodes: func(cat []world.ITSpec, pool string) ([]world.NodeSpec, []*corev1.Pod) {
 		s, m := pickType(cat, "s"), pickType(cat, "m")
 		return []world.NodeSpec{{Name: "n1", Pool: pool, Type: s, Offer: pickOffer(s, "a"), Taints: []corev1.Taint{{Key: "dedicated", Value: "x", Effect: corev1.TaintEffectNoSchedule}}},
 			{Name: "n2", Pool: pool, Type: m, Offer: pickOffer(m, "b"), Labels: map[string]string{world.TeamKey: "x"}}}, []*corev1.Pod{world.Pod("b1", 2000, world.Bound("n2"))}
 	}},
+	// two nodes of one pool with the same daemonsets: n1 has settled (its daemon pods run, a workload nearly fills it),
+	// n2 has just registered and its daemon pods have not landed yet — the overhead still has to be reserved on n2
+	{name: "settled-m-a-daemons-running+fresh-s-a", nodes: func(cat []world.ITSpec, pool string) ([]world.NodeSpec, []*corev1.Pod) {
+		m, s := pickType(cat, "m"), pickType(cat, "s")
+		return []world.NodeSpec{{Name: "n1", Pool: pool, Type: m, Offer: pickOffer(m, "a")},
+			{Name: "n2", Pool: pool, Type: s, Offer: pickOffer(s, "a"), Stage: "registered", NodeOnly: []corev1.Taint{{Key: "node.kubernetes.io/not-ready", Effect: corev1.TaintEffectNoSchedule}}}}, []*corev1.Pod{world.Pod("b1", 2800, world.Bound("n1"))}
+	}, daemonsRunOn: []string{"n1"}},
 }
 
 type dsCfg struct {
@@ -304,6 +314,8 @@ type SchedCase struct {
 	Batch   []int // pod shape indices (sorted multiset); pod i is named p<i>
 	Workers int
 	Reserved bool
+	// NodesInHeaviest: the existing nodes belong to the FIRST pool of the configuration (default: the last one)
+	NodesInHeaviest bool
 }
 
 func (c SchedCase) String() string {
@@ -311,7 +323,11 @@ func (c SchedCase) String() string {
 	for i, b := range c.Batch {
 		names[i] = podShapes[b].name
 	}
-	return fmt.Sprintf("catalog=%s pools=%s nodes=%s ds=%s pref=%s minValues=%s workers=%d batch=[%s]", c.Catalog, poolCfgs[c.Pool].name, nodeCfgs[c.Nodes].name, dsCfgs[c.DS].name, c.Pref, c.MinV, c.Workers, strings.Join(names, ","))
+	nodes := nodeCfgs[c.Nodes].name
+	if c.NodesInHeaviest {
+		nodes += " (owned by the heaviest pool)"
+	}
+	return fmt.Sprintf("catalog=%s pools=%s nodes=%s ds=%s pref=%s minValues=%s workers=%d batch=[%s]", c.Catalog, poolCfgs[c.Pool].name, nodes, dsCfgs[c.DS].name, c.Pref, c.MinV, c.Workers, strings.Join(names, ","))
 }
 
 // SchedEnv is a built world plus the harness's own description of it for the oracles.
@@ -330,6 +346,8 @@ type SchedEnv struct {
 	// Between, if set, runs after Provisioner.Schedule decided and before the NodeClaims are created (the world may move
 	// between the decision and the launch)
 	Between func()
+	// CreateReversed: the NodeClaims of a pass are created last-decided first
+	CreateReversed bool
 }
 
 // multisets of size <= k over n shapes, in order of size then lexicographic
@@ -360,7 +378,11 @@ func buildSched(c SchedCase) *SchedEnv {
 	for _, np := range env.Pools {
 		w.Add(np)
 	}
-	nodes, bound := nodeCfgs[c.Nodes].nodes(env.Catalog, env.Pools[len(env.Pools)-1].Name)
+	nodePool := env.Pools[len(env.Pools)-1].Name
+	if c.NodesInHeaviest {
+		nodePool = env.Pools[0].Name
+	}
+	nodes, bound := nodeCfgs[c.Nodes].nodes(env.Catalog, nodePool)
 	for i := range nodes {
 		// existing managed nodes carry their pool's template taints/labels like real ones would, unless the config sets its own
 		w.BuildNode(nodes[i])
@@ -373,6 +395,24 @@ func buildSched(c SchedCase) *SchedEnv {
 	env.DS = dsCfgs[c.DS].ds()
 	for _, d := range env.DS {
 		w.Add(d)
+		for _, nn := range nodeCfgs[c.Nodes].daemonsRunOn {
+			dp := dsPod(d)
+			dp.Name, dp.UID = d.Name+"-"+nn, types.UID("uid-"+d.Name+"-"+nn)
+			dp.Labels = map[string]string{"ds": d.Name}
+			world.Bound(nn)(dp)
+			world.OwnedBy("DaemonSet", d.Name)(dp)
+			var ns *world.NodeSpec
+			for i := range nodes {
+				if nodes[i].Name == nn {
+					ns = &nodes[i]
+				}
+			}
+			if ns == nil || (dp.Spec.NodeSelector[corev1.LabelTopologyZone] != "" && dp.Spec.NodeSelector[corev1.LabelTopologyZone] != ns.Offer.Zone) {
+				continue
+			}
+			env.Bound = append(env.Bound, dp)
+			w.Add(dp)
+		}
 	}
 	needStorage := map[string]bool{}
 	for i, b := range c.Batch {
@@ -436,18 +476,21 @@ func (env *SchedEnv) runPass(run *explore.Run, workersOverride int) (out schedOu
 		env.Between()
 	}
 	// CreateNodeClaims fans out through client-go's ParallelizeUntil; create one by one to keep the order owned.
-	for _, nc := range res.NewNodeClaims {
-		names, cerr := w.Prov.CreateNodeClaims(w.Ctx, []*scheduling.NodeClaim{nc})
+	out.Created = make([]*v1.NodeClaim, len(res.NewNodeClaims))
+	for k := range res.NewNodeClaims {
+		j := k
+		if env.CreateReversed {
+			j = len(res.NewNodeClaims) - 1 - k
+		}
+		names, cerr := w.Prov.CreateNodeClaims(w.Ctx, []*scheduling.NodeClaim{res.NewNodeClaims[j]})
 		if cerr != nil || len(names) != 1 || names[0] == "" {
-			out.Created = append(out.Created, nil)
 			continue
 		}
 		obj := &v1.NodeClaim{}
 		if gerr := w.Raw.Get(w.Ctx, client.ObjectKey{Name: names[0]}, obj); gerr != nil {
-			out.Created = append(out.Created, nil)
 			continue
 		}
-		out.Created = append(out.Created, obj)
+		out.Created[j] = obj
 	}
 	out.Digest = digestOutcome(out)
 	return out
